@@ -170,15 +170,10 @@ def run_graphs(ctx, graphs):
                     exp = ("missing", f.name)
                     break
             if exp is None:
-                vals = {}
-                for f in flds.values():
-                    if f.init and f.name in dd:
-                        vals[f.name] = dd[f.name]
-                    elif f.default is not dataclasses.MISSING:
-                        vals[f.name] = f.default
-                    else:
-                        vals[f.name] = f.default_factory()
-                exp = ("ok", vals)
+                # the constructor itself is the reference for the values (an init=False member with a plain
+                # default is not assigned by __init__ at all: attribute lookup along the MRO decides)
+                ref = leafd(**{f.name: dd[f.name] for f in flds.values() if f.init and f.name in dd})
+                exp = ("ok", {n: getattr(ref, n) for n in flds})
             try:
                 o = leafd.from_dict(dict(dd))
                 got = ("ok", {n: getattr(o, n) for n in flds})
